@@ -469,7 +469,7 @@ struct Interp : World<Spline, TM, SM>
         Handle &H = h[k];
         const Model &m = H.m;
         const int N = m.prob.N();
-        Eigen::VectorXd x = this->gen_x(m, (uint64_t)o.I(1), 0);
+        Eigen::VectorXd x = this->gen_x(m, (uint64_t)o.I(1), (o.I(8) & 1) ? 3 : 0);
         const int n = (int)x.size();
         std::unique_ptr<WS> temp;
         WS *w = select_ws((int)o.I(2), k, N, temp);
@@ -683,7 +683,7 @@ struct Interp : World<Spline, TM, SM>
             {
                 int k = pick(o.I(0), true);
                 if (k < 0) break;
-                do_eval(k, (uint64_t)o.I(1), (int)(o.I(2) & 1), (int)o.I(3), (int)o.I(4), (uint64_t)o.I(5), (int)o.I(6), (o.I(7) & 1) != 0, (int)o.I(8), (int)o.I(9), o.I(10));
+                do_eval(k, (uint64_t)o.I(1), (int)(o.I(2) & 3), (int)o.I(3), (int)o.I(4), (uint64_t)o.I(5), (int)o.I(6), (o.I(7) & 1) != 0, (int)o.I(8), (int)o.I(9), o.I(10));
                 break;
             }
             case OP_CONCURRENT: do_concurrent(o); break;
